@@ -216,6 +216,7 @@ def run(ck, F):
     ck.rule("R5", "simple-type carrier: text=true on String for string and non-user bases, flatten=true only for user-type bases")
     X = T.extractor(F)
     CE = og.CallExpander(F)
+    CE.keep |= {p_ for p_, _n, _s in A.component_lookups(F)}     # (the lookups stay calls: the rules below name them)
     # ---- R1
     n = 0
     for ev in X.events.get(T.FIELD_WRITER, []):
@@ -275,7 +276,7 @@ def run(ck, F):
             else:
                 ck.ok("R1", "Field:copied", site, f"{fn}: a member copied from an existing one keeps name, namespace and shape", fn="Field::try_from_node")
             continue
-        is_ref = any("'ref'" in og.nf_str(c[1]) and c[2] for c in ctx if c[0] == "alt")
+        is_ref = og.ctx_says_present(ctx, "'ref'")
         is_xml = any("starts_with" in og.nf_str(c[1]) and c[2] for c in ctx if c[0] == "alt")
         # both spellings: with local helper functions expanded and as written (a lookup function that is simple enough to be
         # expanded no longer appears by name)
